@@ -26,6 +26,8 @@ class SdoServer(SdoBase):
         self._toggle = 0
         self._index = 0
         self._subindex = 0
+        #: Segmented transfer in progress: None, "upload" or "download"
+        self._transfer = None
         self.last_received_error = 0x00000000
 
     def on_request(self, can_id, data, timestamp):
@@ -71,16 +73,21 @@ class SdoServer(SdoBase):
             res_command |= EXPEDITED
             res_command |= (4 - size) << 2
             response[4:4 + size] = data
+            self._transfer = None
         else:
             logger.info("Initiating segmented upload for 0x%04X:%02X", index, subindex)
             struct.pack_into("<L", response, 4, size)
             self._buffer = bytearray(data)
             self._toggle = 0
+            self._transfer = "upload"
 
         SDO_STRUCT.pack_into(response, 0, res_command, index, subindex)
         self.send_response(response)
 
     def segmented_upload(self, command):
+        if self._transfer != "upload":
+            # No segmented upload in progress
+            raise SdoAbortedError(0x05040001)
         if command & TOGGLE_BIT != self._toggle:
             # Toggle bit mismatch
             raise SdoAbortedError(0x05030000)
@@ -98,6 +105,7 @@ class SdoServer(SdoBase):
         if not self._buffer:
             # Nothing left in buffer
             res_command |= NO_MORE_DATA
+            self._transfer = None
         # Toggle bit for next message
         self._toggle ^= TOGGLE_BIT
 
@@ -116,6 +124,7 @@ class SdoServer(SdoBase):
     def request_aborted(self, data):
         _, index, subindex, code = struct.unpack_from("<BHBL", data)
         self.last_received_error = code
+        self._transfer = None
         logger.info("Received request aborted for 0x%04X:%02X with code 0x%X", index, subindex, code)
 
     def block_download(self, data):
@@ -142,6 +151,7 @@ class SdoServer(SdoBase):
                 size = 4 - ((command >> 2) & 0x3)
             else:
                 size = 4
+            self._transfer = None
             self._node.set_data(index, subindex, request[4:4 + size], check_writable=True)
         else:
             logger.info("Initiating segmented download for 0x%04X:%02X", index, subindex)
@@ -150,11 +160,15 @@ class SdoServer(SdoBase):
                 logger.info("Size is %d bytes", size)
             self._buffer = bytearray()
             self._toggle = 0
+            self._transfer = "download"
 
         SDO_STRUCT.pack_into(response, 0, res_command, index, subindex)
         self.send_response(response)
 
     def segmented_download(self, command, request):
+        if self._transfer != "download":
+            # No segmented download in progress
+            raise SdoAbortedError(0x05040001)
         if command & TOGGLE_BIT != self._toggle:
             # Toggle bit mismatch
             raise SdoAbortedError(0x05030000)
@@ -162,6 +176,7 @@ class SdoServer(SdoBase):
         self._buffer.extend(request[1:last_byte])
 
         if command & NO_MORE_DATA:
+            self._transfer = None
             self._node.set_data(self._index,
                                 self._subindex,
                                 self._buffer,
@@ -184,6 +199,7 @@ class SdoServer(SdoBase):
         """Abort current transfer."""
         data = struct.pack("<BHBL", RESPONSE_ABORTED,
                            self._index, self._subindex, abort_code)
+        self._transfer = None
         self.send_response(data)
         # logger.error("Transfer aborted with code 0x%08X", abort_code)
 
